@@ -62,9 +62,9 @@ static void execute(Mode& md, Obs& ob) {
       else {
         a.bind(L);
         if (o.pad > 0) a.embed(g_zeros, size_t(o.pad));
-        o.id = -o.pad;
+        (o.t == 'm' ? o.ld : o.id) = -o.pad;
       }
-      ops[j] = L;
+      if (o.t == 'm') ops[j] = make_mem(o, &L); else ops[j] = L;
     }
   }
   if (ob.eo & 1) a.add_encoding_options(EncodingOptions::kOptimizeForSize); else a.clear_encoding_options(EncodingOptions::kOptimizeForSize);
@@ -82,7 +82,7 @@ static void execute(Mode& md, Obs& ob) {
     if (e == Error::kOk) {
       if (o.pad > 0) a.embed(g_zeros, size_t(o.pad));
       Error be = a.bind(fwdLabel);
-      o.id = int(after - before) + o.pad;
+      (o.t == 'm' ? o.ld : o.id) = int(after - before) + o.pad;
       if (be != Error::kOk) { ob.err = 0xFFFD; ob.ename = std::string("BindFailed:") + DebugUtils::error_as_string(be); }
     } else a.bind(fwdLabel);
   }
